@@ -943,6 +943,7 @@ func newGen(prop string, seed, run int64, thorough bool) *genCtx {
 	g.ft = BaseFeat(r, thorough)
 	g.h = &History{Prop: prop, Seed: seed, Run: run}
 	g.h.Cfg = Config{Recover: r.P(0.5), Defer: r.P(0.15), ShuffleSeed: r.I64(), PanicKind: r.Intn(4)}
+	g.h.Cfg.OptNoise = r.P(0.15)
 	if r.P(0.35) {
 		// some universe positions are struct values instead of pointers
 		g.h.Cfg.ValMask = uint32(r.U64()) & uint32(r.U64()) & (1<<NumK - 1)
@@ -1321,9 +1322,13 @@ func (g *genCtx) tmplSliceMembers() {
 		// decorated one was built.
 		base := t - TSlice
 		ds := path[g.r.Intn(len(path))]
+		dt := t
+		if g.r.P(0.5) {
+			dt = base // ... or the other way round: the group of T is the decorated one
+		}
 		dec := g.newFunc(RoleDec)
-		dec.Params = []Param{{Kind: PObj, Fields: []Param{{Kind: PGroup, T: t, Group: grp}}}}
-		dec.Results = []Result{{Kind: RObj, Fields: []Result{{Kind: RGroup, T: t, Group: grp}}}}
+		dec.Params = []Param{{Kind: PObj, Fields: []Param{{Kind: PGroup, T: dt, Group: grp}}}}
+		dec.Results = []Result{{Kind: RObj, Fields: []Result{{Kind: RGroup, T: dt, Group: grp}}}}
 		dec.HasErr = g.r.P(0.3)
 		i := g.addOp(Op{Kind: OpDecorate, Scope: ds, Fn: dec.ID, Tag: "slice-members"})
 		if g.m.PredictDecorate(ds, dec) == PredOK {
